@@ -144,4 +144,146 @@ Section CmacSource.
       destruct (cbc_encrypt E cbcl data) as [ct cbc']; cbn [fst snd];
       destruct (len data =? 16); py; repeat split; reflexivity.
   Qed.
+
+  (* ---------------------------------------------------------------- _shift_bytes *)
+  Lemma lxor_lt_pow2 : forall a b m, 0 <= a < 2 ^ m -> 0 <= b < 2 ^ m -> 0 < m -> 0 <= Z.lxor a b < 2 ^ m.
+  Proof.
+    intros a b m Ha Hb Hm.
+    assert (H0 : 0 <= Z.lxor a b) by (apply Z.lxor_nonneg; lia).
+    split; [assumption|].
+    destruct (Z.eq_dec (Z.lxor a b) 0) as [Ez|Ez]; [rewrite Ez; apply Z.pow_pos_nonneg; lia|].
+    apply (proj2 (Z.log2_lt_pow2 (Z.lxor a b) m ltac:(lia))).
+    pose proof (Z.log2_lxor a b ltac:(lia) ltac:(lia)) as H.
+    assert (La : Z.log2 a < m).
+    { destruct (Z.eq_dec a 0) as [->|Hn]; [cbn; lia|apply Z.log2_lt_pow2; lia]. }
+    assert (Lb : Z.log2 b < m).
+    { destruct (Z.eq_dec b 0) as [->|Hn]; [cbn; lia|apply Z.log2_lt_pow2; lia]. }
+    lia.
+  Qed.
+
+  Theorem shift_bytes_matches_source : forall bs x, bytes_ok bs = true -> 0 <= x < 256 ->
+    result_of (run 10 [] src_shift_bytes_params src_shift_bytes [VBytes bs; VInt x]) = VBytes (shift_bytes bs x).
+  Proof.
+    intros bs x Hok Hx.
+    pose proof (be_int_bound bs Hok) as Hb. pose proof (len_nonneg bs) as Hl.
+    assert (Hr : 0 <= Z.lxor (Z.shiftl (be_int bs) 1) x < 256 ^ (len bs + 1)).
+    { replace (256 ^ (len bs + 1)) with (2 ^ (8 * (len bs + 1))) by (rewrite Z.pow_mul_r by lia; reflexivity).
+      apply lxor_lt_pow2; try lia.
+      - rewrite Z.shiftl_mul_pow2 by lia. change (2 ^ 1) with 2.
+        replace (2 ^ (8 * (len bs + 1))) with (256 ^ len bs * 256).
+        2:{ rewrite (Z.pow_mul_r 2 8) by lia. change (2 ^ 8) with 256.
+            rewrite Z.pow_add_r by lia. reflexivity. }
+        nia.
+      - assert (256 <= 2 ^ (8 * (len bs + 1))).
+        { change 256 with (2 ^ 8). apply Z.pow_le_mono_r; lia. }
+        lia. }
+    py.
+    replace (0 <=? Z.lxor (Z.shiftl (be_int bs) 1) x) with true by lia.
+    replace (Z.lxor (Z.shiftl (be_int bs) 1) x <? 256 ^ (len bs + 1)) with true by lia.
+    py. unfold shift_bytes, py_from.
+    replace (Z.to_nat (len bs + 1)) with (List.length bs + 1)%nat by (unfold len; lia). reflexivity.
+  Qed.
+
+  (* ---------------------------------------------------------------- update: symbolic execution *)
+  (* one step of [exec], the recursive calls left folded *)
+  (* the interpreter instantiated, as one constant the evaluation tactics keep folded *)
+  Definition xc := exec prim_cm no_attr no_op meth_cm.
+
+  (* what happens after an interpreted method returns (kept folded until its outcome is known) *)
+  Definition after_call (target : option string) (en : env) (rest : list stmt) (f : nat) (o : outcome) : outcome :=
+    match o with
+    | ONormal en' =>
+        let en'' := merge_self en' en in
+        xc f (match target with Some t => set_var t VNone en'' | None => en'' end) rest
+    | OReturn en' v =>
+        let en'' := merge_self en' en in
+        xc f (match target with Some t => set_var t v en'' | None => en'' end) rest
+    | ORaise => ORaise
+    | OFuel => OFuel
+    end.
+
+  Lemma after_call_normal : forall target en rest f en',
+    after_call target en rest f (ONormal en') =
+    xc f (match target with Some t => set_var t VNone (merge_self en' en) | None => merge_self en' en end) rest.
+  Proof. reflexivity. Qed.
+  Lemma after_call_return : forall target en rest f en' v,
+    after_call target en rest f (OReturn en' v) =
+    xc f (match target with Some t => set_var t v (merge_self en' en) | None => merge_self en' en end) rest.
+  Proof. reflexivity. Qed.
+  Lemma after_call_raise : forall target en rest f, after_call target en rest f ORaise = ORaise.
+  Proof. reflexivity. Qed.
+
+  Lemma exec_S : forall f en s rest,
+    xc (S f) en (s :: rest) =
+    match s with
+    | SAssign t e =>
+        match eval prim_cm no_attr no_op en e with VErr => ORaise | v => xc f (set_var t v en) rest end
+    | SAssignTuple ts e =>
+        match eval prim_cm no_attr no_op en e with
+        | VTuple vs => if any_err vs then ORaise else
+                       match set_tuple ts vs en with Some en' => xc f en' rest | None => ORaise end
+        | _ => ORaise
+        end
+    | SSliceAssign t lo hi e =>
+        match lookup t en, eval prim_cm no_attr no_op en e with
+        | VBytes b, VBytes v =>
+            match opt_int (match lo with Some x => Some (eval prim_cm no_attr no_op en x) | None => None end) 0,
+                  opt_int (match hi with Some x => Some (eval prim_cm no_attr no_op en x) | None => None end) (len b) with
+            | Some l, Some h => xc f (set_var t (VBytes (py_splice b l h v)) en) rest
+            | _, _ => ORaise
+            end
+        | _, _ => ORaise
+        end
+    | SAug t op e =>
+        match bin no_op op (lookup t en) (eval prim_cm no_attr no_op en e) with
+        | VErr => ORaise | v => xc f (set_var t v en) rest end
+    | SIf c th el =>
+        if cond_err prim_cm no_attr no_op en c then ORaise
+        else if cond_val prim_cm no_attr no_op en c then xc f en (sapp th rest)
+             else xc f en (sapp el rest)
+    | SWhile c body =>
+        if cond_err prim_cm no_attr no_op en c then ORaise
+        else if cond_val prim_cm no_attr no_op en c then xc f en (sapp body (s :: rest))
+             else xc f en rest
+    | SReturn e => match eval prim_cm no_attr no_op en e with VErr => ORaise | v => OReturn en v end
+    | SExpr e => match eval prim_cm no_attr no_op en e with VErr => ORaise | _ => xc f en rest end
+    | SAssert c =>
+        if cond_err prim_cm no_attr no_op en c then ORaise
+        else if cond_val prim_cm no_attr no_op en c then xc f en rest else ORaise
+    | SRaise => ORaise
+    | SPass => xc f en rest
+    | SCall target fname args =>
+        let vs := map (eval prim_cm no_attr no_op en) args in
+        if any_err vs then ORaise else
+        match meth_cm fname with
+        | None => ORaise
+        | Some (ps, body) =>
+            after_call target en rest f (xc f (bind ps vs (self_part en)) body)
+        end
+    end.
+  Proof. reflexivity. Qed.
+
+  Lemma exec_nil : forall f en, xc (S f) en [] = ONormal en.
+  Proof. reflexivity. Qed.
+
+  Ltac sstep :=
+    first [rewrite exec_S at 1 | rewrite exec_nil at 1 | rewrite after_call_normal | rewrite after_call_return | rewrite after_call_raise];
+    cbv -[xc after_call state_in env_of result_of update digest Z.eqb Z.ltb Z.leb Z.add Z.sub Z.mul Z.pow Z.modulo Z.div Z.lxor Z.land Z.lor Z.shiftl Z.shiftr Z.opp
+          Z.min Z.max Z.to_nat Z.of_nat len xor_zip py_slice py_splice rev app zeros be_int to_be nth hd
+          ecb cbc_encrypt shift_bytes key_k1 key_k2 max_size fst snd repeat_bytes];
+    cbn [fst snd];
+    fold_consts.
+  Ltac no_if := lazymatch goal with |- context [if _ then _ else _] => fail | _ => idtac end.
+  Ltac run_sym := repeat (no_if; sstep).
+
+  Goal forall cache n lct lp ds cbcl msg,
+    state_in (env_of (run 80 (cmac_env (mk_cmac cache n lct (Some lp) ds cbcl)) src_cmac_update_params src_cmac_update
+                          [VStr "cmac"; VBytes msg]))
+             (update E (mk_cmac cache n lct (Some lp) ds cbcl) msg).
+  Proof.
+    intros. unfold cmac_env, run, call. change (exec prim_cm no_attr no_op meth_cm) with xc. cbn [c_cache c_cache_n c_last_ct c_last_pt c_data_size c_cbc_last optv].
+    cbv [bind src_cmac_update_params set_var String.eqb Ascii.eqb Bool.eqb]. unfold src_cmac_update.
+    Time (repeat (run_sym; try (match goal with |- context [if ?c then _ else _] => destruct c eqn:? end))).
+    all: try (lazymatch goal with |- context [xc] => idtac | _ => fail end; match goal with |- ?G => idtac "STUCKGOAL" G end).
+  Abort.
 End CmacSource.
